@@ -206,6 +206,13 @@ def build_cases(tier, wd):
         combos = [(f, l, h) for f in followers for l in leaders for h in hosts]
         for f, l, h in r3.sample(combos, 24 if tier == "thorough" and ri < len(mergeable) ** 2 else 3):
             cases.append({"mathml": h.format(l + "".join(run) + f), "origin": "sibling-merge-row", "idmode": "none", "spicy": True, "locale": None})
+    # look-ahead rows: two tokens, an operator, then a NON-token sibling - the clean-up predicates that peek at the next two or three
+    # siblings (mixed fractions, function application, units) must not alter what they only inspect (7ddf993): exhaustive over a
+    # small token set x every operator of the merge list x every non-token follower
+    small = ["<mn>1</mn>", "<mn>234</mn>", "<mi>a</mi>", "<mi>sin</mi>", "<mo>-</mo>", "<mtext>cm</mtext>", "<mo>|</mo>"]
+    ops = [m for m in mergeable if m.startswith("<mo>")]
+    for x_, y_, o_, f in itertools.product(small, small, ops, [f for f in followers if f.startswith("<") and not f.startswith("<mi>") and not f.startswith("<mo>")]):
+        cases.append({"mathml": f"<math>{x_}{y_}{o_}{f}</math>", "origin": "lookahead-row", "idmode": "none", "spicy": True, "locale": None})
     # adjacent wrappers with equal attributes as the positional children of fixed-arity elements (merging them changes the arity)
     for wrap in ("mstyle mathvariant='bold'", "mstyle", "mpadded width='1em'", "mstyle mathcolor='red'"):
         w = lambda x: f"<{wrap}>{x}</{wrap.split()[0]}>"
